@@ -1,64 +1,186 @@
-(* Proofs about model/AsyncPool.v (C12: the AsyncPool bookkeeping of device/src/u3v/async_read.rs). *)
+(* Proofs about model/AsyncPool.v (C12: the AsyncPool bookkeeping of device/src/u3v/async_read.rs,
+   with failing event handling and slow cancellations). *)
 From Cam Require Import Outcome Bytes AsyncPool.
 
 Definition accepted_by_libusb (sl : slot) : Prop := sl_st sl <> LUnknown.
 
-(* cancelled or completed: the next event handling completes it *)
+(* cancelled or completed: event handling completes it once its cancellation latency has run out *)
 Definition ready (sl : slot) : Prop :=
-  match sl_st sl with LDone _ _ => True | LFlight _ _ _ true => True | _ => False end.
+  match sl_st sl with LDone _ _ => True | LFlight _ _ _ _ true => True | _ => False end.
 
 Definition pending_of (s : pstate) : list slot := match p_pool s with Some q => q | None => [] end.
 
 Definition nums (k : nat) : list Z := map Z.of_nat (seq 0 k).
 
-Ltac pf := cbn [p_plan p_epoch p_pool p_calls p_accepted p_refused p_completed p_notfound p_reaped
-                sl_no sl_buf sl_st set_pool] in *.
+(* transfers in flight, as a natural number *)
+Definition nfl1 (sl : slot) : nat := if is_flight sl then 1%nat else 0%nat.
+Fixpoint nfl (q : list slot) : nat := match q with [] => O | sl :: r => (nfl1 sl + nfl r)%nat end.
+
+(* what libusb documents: the transfer statuses handle_completed knows, the error codes
+   from_libusb_error knows *)
+Definition status_ok (st : Z) : Prop := st = 0 \/ st = 3 \/ st = 1 \/ st = 4 \/ st = 5 \/ st = 6.
+Definition code_ok (c : Z) : Prop := err_class c <> None.
+Definition ev_ok (c : Z) : Prop := c = 0 \/ code_ok c.
+Definition plan_ok (p : plan) : Prop :=
+  match p with PRefuse c => code_ok c | PAccept st _ _ _ => status_ok st end.
+Definition slot_ok (sl : slot) : Prop :=
+  match sl_st sl with LFlight st _ _ _ _ => status_ok st | LDone st _ => status_ok st | LUnknown => True end.
+Definition op_ok (o : Z * Z) : Prop := fst o = 9 -> ev_ok (snd o).
+
+(* the rounds the clean-up loop of Drop can still take *)
+Definition drop_measure (s : pstate) (q : list slot) : nat := (length q + lat_sum q + failures (p_evs s))%nat.
+
+Ltac pf := cbn [p_plan p_evs p_epoch p_pool p_calls p_accepted p_refused p_completed p_notfound p_evcalls p_freed
+                p_reaped sl_no sl_buf sl_st set_pool ev_call add_completed add_notfound next_epoch push_ev pop_front
+                free_pool mkslot] in *.
 
 (* ---- event handling and cancellation keep the queue, its order and what libusb accepted ---------- *)
 
-Lemma complete1_facts e sl : let sl' := fst (complete1 e sl) in
-  sl_no sl' = sl_no sl /\ (accepted_by_libusb sl -> accepted_by_libusb sl') /\
-  (ready sl -> exists st ln, sl_st sl' = LDone st ln).
+Lemma status_ok_completion st ln : status_ok st -> completion st ln <> None.
+Proof. unfold status_ok, completion. intros [H|[H|[H|[H|[H|H]]]]]; subst; cbn; discriminate. Qed.
+
+Lemma complete1_facts e sl : let sl' := fst (complete1 e sl) in let n := snd (complete1 e sl) in
+  sl_no sl' = sl_no sl /\ (accepted_by_libusb sl -> accepted_by_libusb sl') /\ (ready sl -> ready sl') /\
+  0 <= n /\ Z.of_nat (nfl1 sl') + n = Z.of_nat (nfl1 sl) /\ (lat1 sl' <= lat1 sl)%nat /\
+  (slot_ok sl -> slot_ok sl') /\
+  (ready sl -> n = 0 -> front_done [sl'] = false -> (lat1 sl' < lat1 sl)%nat).
 Proof.
-  unfold complete1, accepted_by_libusb, ready. destruct (sl_st sl) as [|st ln due c|st ln] eqn:E; cbn [fst].
-  - rewrite E. repeat split; auto. intros [].
-  - destruct c; cbn [fst sl_no sl_st].
-    + repeat split; try discriminate. intros _. eauto.
-    + destruct (due <? e); cbn [fst sl_no sl_st]; rewrite ?E; repeat split; auto; try discriminate; intros [].
-  - rewrite E. repeat split; auto. eauto.
+  unfold complete1, accepted_by_libusb, ready, nfl1, is_flight, lat1, slot_ok, front_done.
+  destruct (sl_st sl) as [|st ln due cl c|st ln] eqn:E; cbn [fst snd].
+  - rewrite E. repeat split; auto; try lia; try (intros []).
+  - destruct c, cl; cbn [fst snd]; pf.
+    + repeat split; auto; try lia; try discriminate. intros _; unfold status_ok; auto.
+    + destruct (due <? e); cbn [fst snd]; pf; repeat split; auto; try lia; try discriminate.
+    + destruct (due <? e); cbn [fst snd]; pf; rewrite ?E; repeat split; auto; try lia; try discriminate; try (intros []).
+    + destruct (due <? e); cbn [fst snd]; pf; rewrite ?E; repeat split; auto; try lia; try discriminate; try (intros []).
+  - rewrite E. repeat split; auto; try lia; try discriminate.
 Qed.
 
-Lemma events_facts e q : let q' := fst (events e q) in
+Lemma events_facts e q : let q' := fst (events e q) in let n := snd (events e q) in
   map sl_no q' = map sl_no q /\ (Forall accepted_by_libusb q -> Forall accepted_by_libusb q') /\
-  (Forall ready q -> Forall (fun sl => exists st ln, sl_st sl = LDone st ln) q').
+  (Forall ready q -> Forall ready q') /\ 0 <= n /\ Z.of_nat (nfl q') + n = Z.of_nat (nfl q) /\
+  (lat_sum q' <= lat_sum q)%nat /\ (Forall slot_ok q -> Forall slot_ok q') /\
+  (Forall ready q -> n = 0 -> front_done q' = false -> q <> [] -> (lat_sum q' < lat_sum q)%nat).
 Proof.
-  induction q as [|sl q IH]; cbn [events fst map].
-  - repeat split; auto.
+  induction q as [|sl q IH]; cbn [events fst snd map nfl lat_sum].
+  - repeat split; auto; try lia. congruence.
   - pose proof (complete1_facts e sl) as Hc. destruct (complete1 e sl) as [sl' n]. destruct (events e q) as [q' m].
-    cbn [fst map] in *. destruct Hc as [H1 [H2 H3]]. destruct IH as [I1 [I2 I3]].
-    split; [now rewrite H1, I1|]. split.
-    + intros Hf. inversion Hf; subst. constructor; auto.
-    + intros Hf. inversion Hf; subst. constructor; auto.
+    cbn [fst snd map nfl lat_sum] in *.
+    destruct Hc as [H1 [H2 [H3 [H4 [H5 [H6 [H7 H8]]]]]]]. destruct IH as [I1 [I2 [I3 [I4 [I5 [I6 [I7 _]]]]]]].
+    split; [now rewrite H1, I1|]. split; [intros Hf; inversion Hf; subst; constructor; auto|].
+    split; [intros Hf; inversion Hf; subst; constructor; auto|]. split; [lia|]. split; [lia|]. split; [lia|].
+    split; [intros Hf; inversion Hf; subst; constructor; auto|].
+    intros Hf Hn Hd _. inversion Hf; subst. assert (n = 0) by lia.
+    assert (lat1 sl' < lat1 sl)%nat; [|lia]. apply H8; auto.
 Qed.
 
 Lemma cancel1_facts sl : let sl' := fst (cancel1 sl) in
-  sl_no sl' = sl_no sl /\ (accepted_by_libusb sl -> accepted_by_libusb sl' /\ ready sl').
+  sl_no sl' = sl_no sl /\ (accepted_by_libusb sl -> accepted_by_libusb sl' /\ ready sl') /\ (slot_ok sl -> slot_ok sl').
 Proof.
-  unfold cancel1, accepted_by_libusb, ready. destruct (sl_st sl) as [|st ln due c|st ln] eqn:E; cbn [fst sl_no sl_st].
-  - split; [reflexivity|]. intros H. congruence.
-  - split; [reflexivity|]. intros _. split; [discriminate|exact I].
-  - split; [reflexivity|]. intros _. rewrite E. split; [discriminate|exact I].
+  unfold cancel1, accepted_by_libusb, ready, slot_ok. destruct (sl_st sl) as [|st ln due cl c|st ln] eqn:E; cbn [fst]; pf.
+  - rewrite E. split; [reflexivity|]. split; auto; try (intros H; congruence).
+  - split; [reflexivity|]. split; auto; try (intros _; split; [discriminate|exact I]).
+  - rewrite E. split; [reflexivity|]. split; auto; try (intros _; split; [discriminate|exact I]).
 Qed.
 
 Lemma cancel_all_facts q : let q' := fst (cancel_all q) in
-  map sl_no q' = map sl_no q /\ (Forall accepted_by_libusb q -> Forall accepted_by_libusb q' /\ Forall ready q').
+  map sl_no q' = map sl_no q /\ (Forall accepted_by_libusb q -> Forall accepted_by_libusb q' /\ Forall ready q') /\
+  (Forall slot_ok q -> Forall slot_ok q').
 Proof.
   induction q as [|sl q IH]; cbn [cancel_all fst map].
   - repeat split; auto.
   - pose proof (cancel1_facts sl) as Hc. destruct (cancel1 sl) as [sl' n]. destruct (cancel_all q) as [q' m].
-    cbn [fst map] in *. destruct Hc as [H1 H2]. destruct IH as [I1 I2].
-    split; [now rewrite H1, I1|]. intros Hf. inversion Hf; subst.
-    destruct (H2 H3) as [A1 A2]. destruct (I2 H4) as [B1 B2]. split; constructor; auto.
+    cbn [fst map] in *. destruct Hc as [H1 [H2 H3]]. destruct IH as [I1 [I2 I3]].
+    split; [now rewrite H1, I1|]. split.
+    + intros Hf. inversion Hf; subst.
+      destruct (H2 H4) as [A1 A2]. destruct (I2 H5) as [B1 B2]. split; constructor; auto.
+    + intros Hf. inversion Hf; subst. constructor; auto.
+Qed.
+
+Lemma nfl_le q : (nfl q <= length q)%nat.
+Proof. induction q as [|sl q IH]; cbn [nfl length]; [lia|]. unfold nfl1. destruct (is_flight sl); lia. Qed.
+
+Lemma failures_tl l : (failures (tl l) <= failures l)%nat.
+Proof. destruct l as [|c r]; cbn [tl failures]; [lia|]. destruct (c =? 0); lia. Qed.
+
+Lemma failures_tl_lt l : hd 0 l <> 0 -> (failures (tl l) < failures l)%nat.
+Proof.
+  destruct l as [|c r]; cbn [hd tl failures]; [congruence|]. intros H.
+  destruct (Z.eqb_spec c 0); [congruence|lia].
+Qed.
+
+Lemma hd_in l : hd 0 l <> 0 -> In (hd 0 l) l.
+Proof. destruct l; cbn [hd]; [congruence|]. intros _. now left. Qed.
+
+Lemma Forall_tl {A} (P : A -> Prop) l : Forall P l -> Forall P (tl l).
+Proof. intros H. destruct l; cbn [tl]; [constructor|]. now inversion H. Qed.
+
+(* ---- poll_completed ----------------------------------------------------------------------------------- *)
+
+(* what a wait leaves untouched *)
+Definition core_eq (s s' : pstate) : Prop :=
+  p_plan s' = p_plan s /\ p_epoch s' = p_epoch s /\ p_pool s' = p_pool s /\ p_accepted s' = p_accepted s /\
+  p_reaped s' = p_reaped s /\ p_freed s' = p_freed s.
+
+Lemma front_done_reap q : front_done q = true -> exists sl r out, q = sl :: r /\ reap sl = Some out.
+Proof.
+  unfold front_done. destruct q as [|sl r]; [discriminate|]. destruct (sl_st sl) as [| |st ln] eqn:E; try discriminate.
+  intros _. exists sl, r. unfold reap. rewrite E. eauto.
+Qed.
+
+Lemma reap_none_front sl r : reap sl = None -> front_done (sl :: r) = false.
+Proof. unfold reap, front_done. destruct (sl_st sl); auto. discriminate. Qed.
+
+Lemma poll_wait_facts fuel : forall s q s' q' w, (nfl q < fuel)%nat -> Forall accepted_by_libusb q ->
+  poll_wait fuel s q = (s', q', w) ->
+  core_eq s s' /\ map sl_no q' = map sl_no q /\ Forall accepted_by_libusb q' /\ (Forall ready q -> Forall ready q') /\
+  (lat_sum q' <= lat_sum q)%nat /\ (failures (p_evs s') <= failures (p_evs s))%nat /\
+  (forall P : Z -> Prop, Forall P (p_evs s) -> Forall P (p_evs s')) /\ (Forall slot_ok q -> Forall slot_ok q') /\
+  match w with
+  | WDone => front_done q' = true
+  | WTimeout => q <> [] -> Forall ready q ->
+                (failures (p_evs s') < failures (p_evs s))%nat \/ (lat_sum q' < lat_sum q)%nat
+  | WErr c => (failures (p_evs s') < failures (p_evs s))%nat /\ In c (p_evs s) /\ c <> 0
+  end.
+Proof.
+  induction fuel as [|f IH]; intros s q s' q' w Hn Ha H; [lia|].
+  cbn [poll_wait] in H. destruct (Z.eqb_spec (hd 0 (p_evs s)) 0) as [E0|E0].
+  - pose proof (events_facts (p_epoch s) q) as He. destruct (events (p_epoch s) q) as [q1 n]. cbn [fst snd] in He.
+    destruct He as [E1 [E2 [E3 [E4 [E5 [E6 [E7 E8]]]]]]].
+    destruct (front_done q1) eqn:Ed.
+    { inversion H; subst. unfold core_eq. pf. repeat split; auto; try apply failures_tl;
+        try (intros ? ?; apply Forall_tl; assumption). }
+    destruct (Z.eqb_spec n 0) as [N0|N0].
+    { inversion H; subst. unfold core_eq. pf. repeat split; auto; try apply failures_tl;
+        try (intros ? ?; apply Forall_tl; assumption);
+      try (intros Hq Hr; right; apply E8; auto). }
+    assert (Hn1 : (nfl q1 < f)%nat) by lia.
+    destruct (IH _ _ _ _ _ Hn1 (E2 Ha) H) as [C [M [A [R [L [F [P [O W]]]]]]]].
+    unfold core_eq in *. pf. destruct C as [C1 [C2 [C3 [C4 [C5 C6]]]]].
+    pose proof (failures_tl (p_evs s)) as Ft.
+    repeat split; auto; try congruence; try lia.
+    + intros P0 HP. apply P, Forall_tl, HP.
+    + destruct w.
+      * exact W.
+      * intros Hq Hr. assert (Hq1 : q1 <> []).
+        { intros X; subst q1. destruct q; [congruence|discriminate]. }
+        destruct (W Hq1 (E3 Hr)); [left|right]; lia.
+      * destruct W as [W1 [W2 W3]]. repeat split; auto; try lia.
+        destruct (p_evs s); cbn [tl] in W2; [destruct W2|now right].
+  - pose proof (failures_tl_lt _ E0) as Fl. pose proof (hd_in _ E0) as Hi.
+    destruct (hd 0 (p_evs s) =? -7); inversion H; subst; unfold core_eq; pf;
+      repeat split; auto; try lia; try (intros ? ?; apply Forall_tl; assumption).
+Qed.
+
+(* the fuel `poll` gives to the wait is never used up: more fuel changes nothing *)
+Lemma poll_wait_fuel fuel : forall fuel' s q, (nfl q < fuel)%nat -> (nfl q < fuel')%nat ->
+  poll_wait fuel s q = poll_wait fuel' s q.
+Proof.
+  induction fuel as [|f IH]; intros fuel' s q H1 H2; [lia|]. destruct fuel' as [|f']; [lia|].
+  cbn [poll_wait]. destruct (hd 0 (p_evs s) =? 0); [|reflexivity].
+  pose proof (events_facts (p_epoch s) q) as He. destruct (events (p_epoch s) q) as [q1 n]. cbn [fst snd] in He.
+  destruct He as [_ [_ [_ [E4 [E5 _]]]]].
+  destruct (front_done q1); [reflexivity|]. destruct (Z.eqb_spec n 0); [reflexivity|]. apply IH; lia.
 Qed.
 
 (* ---- poll ------------------------------------------------------------------------------------------ *)
@@ -69,139 +191,354 @@ Proof. intros H. unfold reap. rewrite H. eauto. Qed.
 Lemma reap_some sl out : reap sl = Some out -> exists st ln, sl_st sl = LDone st ln.
 Proof. unfold reap. destruct (sl_st sl); try discriminate. eauto. Qed.
 
-(* poll either returns the completion of the FRONT transfer and removes exactly it, or times out
-   and leaves the queue (numbers, order) as it is *)
-Lemma poll_facts s q s' r : poll s q = (s', r) -> Forall accepted_by_libusb q ->
-  p_accepted s' = p_accepted s /\ p_plan s' = p_plan s /\ p_epoch s' = p_epoch s /\
-  match r with
-  | Some _ => exists sl rest, map sl_no q = sl_no sl :: map sl_no rest /\ p_pool s' = Some rest /\
-                              p_reaped s' = p_reaped s ++ [sl_no sl] /\ Forall accepted_by_libusb rest /\
-                              (Forall ready q -> Forall ready rest)
-  | None => p_reaped s' = p_reaped s /\
-            (q <> [] -> exists q', p_pool s' = Some q' /\ map sl_no q' = map sl_no q /\ Forall accepted_by_libusb q')
-  end.
+Lemma reap_ok sl out : slot_ok sl -> reap sl = Some out -> is_panic out = false.
 Proof.
-  intros H Hf. unfold poll in H. destruct q as [|sl q].
-  - inversion H; subst. repeat split; auto. intros X; congruence.
-  - destruct (reap sl) as [out|] eqn:Er.
-    + inversion H; subst. pf. repeat split; auto. exists sl, q. inversion Hf; subst.
-      repeat split; auto. intros Hr. inversion Hr; auto.
-    + pose proof (events_facts (p_epoch s) (sl :: q)) as He.
-      destruct (events (p_epoch s) (sl :: q)) as [q' n]. cbn [fst] in He. destruct He as [E1 [E2 E3]].
-      destruct q' as [|sl' r']; [cbn [map] in E1; discriminate|].
-      destruct (reap sl') as [out|] eqn:Er'.
-      * inversion H; subst. pf. repeat split; auto. exists sl', r'. specialize (E2 Hf). inversion E2; subst.
-        repeat split; auto. intros Hr. specialize (E3 Hr). inversion E3; subst.
-        eapply Forall_impl; [|eassumption]. intros a [st [ln Ha]]. unfold ready. now rewrite Ha.
-      * inversion H; subst. pf. repeat split; auto. intros _. exists (sl' :: r'). repeat split; auto.
+  unfold slot_ok, reap. destruct (sl_st sl) as [| |st ln]; try discriminate. intros Hs H. inversion H; subst.
+  pose proof (status_ok_completion st ln Hs). destruct (completion st ln) as [[n|c]|]; [reflexivity|reflexivity|congruence].
 Qed.
 
-Lemma poll_ready s q : q <> [] -> Forall ready q -> exists s' out, poll s q = (s', Some out).
+Lemma lat1_done sl out : reap sl = Some out -> lat1 sl = O.
+Proof. unfold reap, lat1. destruct (sl_st sl); try discriminate. reflexivity. Qed.
+
+(* poll either returns the completion of the FRONT transfer and removes exactly it, or fails (time-out,
+   event-handling error, unreachable!()) and leaves the queue (numbers, order) as it is; a failing poll
+   with a positive time-out on a queue of cancelled transfers uses up a failing event-handling call of
+   the plan or a round of some cancellation latency *)
+Lemma poll_facts ms s q s' r : poll ms s q = (s', r) -> p_pool s = Some q -> Forall accepted_by_libusb q ->
+  p_accepted s' = p_accepted s /\ p_plan s' = p_plan s /\ p_epoch s' = p_epoch s /\ p_freed s' = p_freed s /\
+  (failures (p_evs s') <= failures (p_evs s))%nat /\ (forall P : Z -> Prop, Forall P (p_evs s) -> Forall P (p_evs s')) /\
+  match r with
+  | PReap out => exists sl rest, map sl_no q = sl_no sl :: map sl_no rest /\ p_pool s' = Some rest /\
+                              p_reaped s' = p_reaped s ++ [sl_no sl] /\ Forall accepted_by_libusb rest /\
+                              (Forall ready q -> Forall ready rest) /\ (lat_sum rest <= lat_sum q)%nat /\
+                              (Forall slot_ok q -> Forall slot_ok rest /\ is_panic out = false)
+  | PFail _ | PPanic =>
+    p_reaped s' = p_reaped s /\
+    exists q', p_pool s' = Some q' /\ map sl_no q' = map sl_no q /\ Forall accepted_by_libusb q' /\
+               (Forall ready q -> Forall ready q') /\ (lat_sum q' <= lat_sum q)%nat /\
+               (Forall slot_ok q -> Forall slot_ok q') /\
+               (q <> [] -> Forall ready q -> 0 < ms ->
+                (failures (p_evs s') < failures (p_evs s))%nat \/ (lat_sum q' < lat_sum q)%nat) /\
+               (r = PPanic -> q <> [] -> ~ Forall ev_ok (p_evs s))
+  end.
 Proof.
-  intros Hq Hr. unfold poll. destruct q as [|sl q]; [congruence|].
-  destruct (reap sl) as [out|] eqn:Er; [eauto|].
-  pose proof (events_facts (p_epoch s) (sl :: q)) as He.
-  destruct (events (p_epoch s) (sl :: q)) as [q' n]. cbn [fst] in He. destruct He as [E1 [_ E3]].
-  destruct q' as [|sl' r']; [cbn [map] in E1; discriminate|].
-  specialize (E3 Hr). inversion E3; subst. destruct H1 as [st [ln Hd]].
-  destruct (reap_done _ _ _ Hd) as [out Ho]. rewrite Ho. eauto.
+  intros H Hp Hf. unfold poll in H. destruct q as [|sl q].
+  - inversion H; subst. repeat split; auto. exists []. repeat split; auto; congruence.
+  - destruct (reap sl) as [out|] eqn:Er.
+    + inversion H; subst. pf. repeat split; auto. exists sl, q. inversion Hf; subst.
+      split; [reflexivity|]. split; [reflexivity|]. split; [reflexivity|]. split; [assumption|].
+      split; [intros Hr; now inversion Hr|]. split; [cbn [lat_sum]; lia|].
+      intros Ho. inversion Ho; subst. split; [assumption|]. eapply reap_ok; eassumption.
+    + destruct (Z.leb_spec ms 0) as [Hms|Hms].
+      { inversion H; subst. repeat split; auto. exists (sl :: q). repeat split; auto; try lia. discriminate. }
+      destruct (poll_wait (S (length (sl :: q))) s (sl :: q)) as [[s1 q1] w] eqn:Ew.
+      assert (Hl : (nfl (sl :: q) < S (length (sl :: q)))%nat) by (pose proof (nfl_le (sl :: q)); lia).
+      destruct (poll_wait_facts _ _ _ _ _ _ Hl Hf Ew) as [C [M [A [R [L [F [P [O W]]]]]]]].
+      unfold core_eq in C. destruct C as [C1 [C2 [C3 [C4 [C5 C6]]]]].
+      assert (Hq1 : exists sl1 r1, q1 = sl1 :: r1).
+      { destruct q1 as [|a b]; [discriminate|eauto]. }
+      destruct Hq1 as [sl1 [r1 ->]].
+      destruct w as [| |code].
+      * destruct (front_done_reap _ W) as [sl2 [r2 [out [Eq Ho]]]]. inversion Eq; subst sl2 r2. rewrite Ho in H.
+        inversion H; subst. pf. repeat split; auto. exists sl1, r1. inversion A; subst.
+        split; [symmetry; exact M|]. split; [reflexivity|]. split; [now rewrite C5|]. split; [assumption|].
+        split; [intros Hr; specialize (R Hr); now inversion R|]. split; [cbn [lat_sum] in L |- *; lia|].
+        intros Ho'. specialize (O Ho'). inversion O; subst. split; [assumption|]. eapply reap_ok; eassumption.
+      * inversion H; subst. pf. repeat split; auto. exists (sl1 :: r1). repeat split; auto. discriminate.
+      * destruct W as [W1 [W2 W3]].
+        destruct (err_class code) as [c|] eqn:Ec; inversion H; subst; pf; repeat split; auto;
+          exists (sl1 :: r1); repeat split; auto; try discriminate.
+        intros _ _ Hev. rewrite Forall_forall in Hev. destruct (Hev _ W2) as [X|X]; [congruence|].
+        unfold code_ok in X. congruence.
 Qed.
 
 (* ---- Drop ------------------------------------------------------------------------------------------ *)
 
-Lemma drain_ready fuel : forall s q, (length q < fuel)%nat -> Forall accepted_by_libusb q -> Forall ready q ->
+(* one round of the clean-up loop on a non-empty queue of cancelled transfers: whatever the poll
+   does, the queue stays a queue of accepted, cancelled transfers, nothing is lost
+   (returned ++ pending is unchanged), and the measure drops *)
+Lemma drain_step s q s' r : q <> [] -> Forall accepted_by_libusb q -> Forall ready q -> p_pool s = Some q ->
+  poll 1000 s q = (s', r) ->
+  exists q', p_pool s' = Some q' /\ Forall accepted_by_libusb q' /\ Forall ready q' /\
+    (drop_measure s' q' < drop_measure s q)%nat /\ p_accepted s' = p_accepted s /\ p_freed s' = p_freed s /\
+    p_reaped s' ++ map sl_no q' = p_reaped s ++ map sl_no q /\
+    p_plan s' = p_plan s /\ (forall P : Z -> Prop, Forall P (p_evs s) -> Forall P (p_evs s')) /\
+    (Forall slot_ok q -> Forall ev_ok (p_evs s) ->
+     Forall slot_ok q' /\ Forall ev_ok (p_evs s') /\ r <> PPanic /\ forall out, r = PReap out -> is_panic out = false).
+Proof.
+  intros Hq Ha Hr Hp H. destruct (poll_facts _ _ _ _ _ H Hp Ha) as [A1 [A2 [A3 [A4 [A5 [A6 R]]]]]].
+  unfold drop_measure. destruct r as [out|out|].
+  - destruct R as [sl [rest [M [P1 [R1 [F1 [F2 [L O]]]]]]]]. exists rest.
+    assert (Hlen : length q = S (length rest)).
+    { rewrite <- (map_length sl_no q), M. cbn [length]. now rewrite map_length. }
+    repeat split; auto; try lia.
+    + rewrite R1, <- app_assoc, M. reflexivity.
+    + apply O; assumption.
+    + discriminate.
+    + intros out0 E. inversion E; subst. apply O; assumption.
+  - destruct R as [R1 [q' [P1 [M [F1 [F2 [L [O [D _]]]]]]]]]. exists q'.
+    assert (Hlen : length q' = length q).
+    { rewrite <- (map_length sl_no q'), M. now rewrite map_length. }
+    specialize (D Hq Hr ltac:(lia)).
+    repeat split; auto; try lia.
+    + now rewrite R1, M.
+    + discriminate.
+    + discriminate.
+  - destruct R as [R1 [q' [P1 [M [F1 [F2 [L [O [D X]]]]]]]]]. exists q'.
+    assert (Hlen : length q' = length q).
+    { rewrite <- (map_length sl_no q'), M. now rewrite map_length. }
+    specialize (D Hq Hr ltac:(lia)).
+    repeat split; auto; try lia.
+    + now rewrite R1, M.
+    + exfalso. apply (X eq_refl Hq). assumption.
+    + discriminate.
+Qed.
+
+(* the clean-up loop: with fuel above the measure it never runs out of fuel; if it returns, every
+   pending transfer has been reaped, in order, and nothing was freed in flight; with statuses and
+   error codes libusb documents it returns *)
+Lemma drain_ready fuel : forall s q, (drop_measure s q < fuel)%nat -> Forall accepted_by_libusb q -> Forall ready q ->
   p_pool s = Some q ->
-  exists s', drain fuel s q = Some s' /\ p_pool s' = None /\ p_reaped s' = p_reaped s ++ map sl_no q /\
-             p_accepted s' = p_accepted s.
+  drain fuel s q <> DHang /\
+  (forall s', drain fuel s q = DRet s' ->
+     p_pool s' = None /\ p_reaped s' = p_reaped s ++ map sl_no q /\ p_accepted s' = p_accepted s /\ p_freed s' = p_freed s /\
+     p_plan s' = p_plan s /\ (forall P : Z -> Prop, Forall P (p_evs s) -> Forall P (p_evs s'))) /\
+  (Forall slot_ok q -> Forall ev_ok (p_evs s) -> exists s', drain fuel s q = DRet s').
 Proof.
   induction fuel as [|f IH]; intros s q Hl Ha Hr Hp; [lia|].
   destruct q as [|sl q].
-  - cbn [drain]. eexists. split; [reflexivity|]. pf. cbn [map]. rewrite app_nil_r. auto.
-  - cbn [drain]. destruct (poll_ready s (sl :: q) ltac:(discriminate) Hr) as [s1 [out Hpoll]].
-    rewrite Hpoll. destruct (poll_facts _ _ _ _ Hpoll Ha) as [A1 [_ [_ [sl0 [rest [M [P1 [R1 [F1 F2]]]]]]]]].
-    rewrite P1. cbn [map] in M. inversion M as [[M1 M2]].
-    assert (Hlen : length rest = length q).
-    { rewrite <- (map_length sl_no rest), <- M2, map_length. reflexivity. }
-    destruct (IH s1 rest ltac:(cbn [length] in Hl; lia) F1 (F2 Hr) P1) as [s' [D1 [D2 [D3 D4]]]].
-    exists s'. split; [exact D1|]. split; [exact D2|]. split; [|congruence].
-    rewrite D3, R1, <- M2, <- app_assoc. cbn [app map]. now rewrite M1.
+  - cbn [drain]. split; [discriminate|]. split.
+    + intros s' E. inversion E; subst. pf. cbn [map]. rewrite app_nil_r. unfold in_flight. cbn. repeat split; auto; lia.
+    + intros _ _. eauto.
+  - cbn [drain]. destruct (poll 1000 s (sl :: q)) as [s1 r] eqn:Epoll.
+    assert (Hne : sl :: q <> []) by discriminate.
+    destruct (drain_step _ _ _ _ Hne Ha Hr Hp Epoll) as [q' [P1 [F1 [F2 [D [A [Fr [Rp [Pl [Ev O]]]]]]]]]].
+    assert (Hl' : (drop_measure s1 q' < f)%nat) by lia.
+    destruct (IH s1 q' Hl' F1 F2 P1) as [I1 [I2 I3]].
+    destruct r as [out|out|]; rewrite P1.
+    + destruct (is_panic out) eqn:Ep.
+      * split; [discriminate|]. split; [intros s' E; discriminate|].
+        intros Ho He. destruct (O Ho He) as [_ [_ [_ X]]]. specialize (X out eq_refl). congruence.
+      * split; [exact I1|]. split.
+        -- intros s' E. destruct (I2 s' E) as [B1 [B2 [B3 [B4 [B5 B6]]]]]. repeat split; auto; congruence.
+        -- intros Ho He. destruct (O Ho He) as [O1 [O2 _]]. apply I3; assumption.
+    + split; [exact I1|]. split.
+      * intros s' E. destruct (I2 s' E) as [B1 [B2 [B3 [B4 [B5 B6]]]]]. repeat split; auto; congruence.
+      * intros Ho He. destruct (O Ho He) as [O1 [O2 _]]. apply I3; assumption.
+    + split; [discriminate|]. split; [intros s' E; discriminate|].
+      intros Ho He. destruct (O Ho He) as [_ [_ [X _]]]. congruence.
+Qed.
+
+(* more fuel than the measure changes nothing: the loop ends within `drop_measure` polls *)
+Lemma drain_fuel fuel : forall fuel' s q, (drop_measure s q < fuel)%nat -> (drop_measure s q < fuel')%nat ->
+  Forall accepted_by_libusb q -> Forall ready q -> p_pool s = Some q -> drain fuel s q = drain fuel' s q.
+Proof.
+  induction fuel as [|f IH]; intros fuel' s q H1 H2 Ha Hr Hp; [lia|]. destruct fuel' as [|f']; [lia|].
+  destruct q as [|sl q]; [reflexivity|]. cbn [drain].
+  destruct (poll 1000 s (sl :: q)) as [s1 r] eqn:Epoll.
+  assert (Hne : sl :: q <> []) by discriminate.
+  destruct (drain_step _ _ _ _ Hne Ha Hr Hp Epoll) as [q' [P1 [F1 [F2 [D _]]]]].
+  destruct r as [out|out|]; rewrite P1; [destruct (is_panic out); [reflexivity|]| |reflexivity]; apply IH; auto; lia.
 Qed.
 
 Lemma pool_drop_ok s q : p_pool s = Some q -> Forall accepted_by_libusb q ->
-  exists s', pool_drop s q = Some s' /\ p_pool s' = None /\ p_reaped s' = p_reaped s ++ map sl_no q /\
-             p_accepted s' = p_accepted s.
+  pool_drop s q <> DHang /\
+  (forall s', pool_drop s q = DRet s' ->
+     p_pool s' = None /\ p_reaped s' = p_reaped s ++ map sl_no q /\ p_accepted s' = p_accepted s /\ p_freed s' = p_freed s /\
+     p_plan s' = p_plan s /\ (forall P : Z -> Prop, Forall P (p_evs s) -> Forall P (p_evs s'))) /\
+  (Forall slot_ok q -> Forall ev_ok (p_evs s) -> exists s', pool_drop s q = DRet s').
 Proof.
   intros Hp Ha. unfold pool_drop. pose proof (cancel_all_facts q) as Hc.
-  destruct (cancel_all q) as [q' n]. cbn [fst] in Hc. destruct Hc as [C1 C2]. destruct (C2 Ha) as [A R].
-  match goal with |- context [drain ?f ?s0 q'] => destruct (drain_ready f s0 q' ltac:(lia) A R eq_refl)
-    as [s' [D1 [D2 [D3 D4]]]] end.
-  exists s'. pf. rewrite C1 in D3. auto.
+  destruct (cancel_all q) as [q' n]. cbn [fst] in Hc. destruct Hc as [C1 [C2 C3]]. destruct (C2 Ha) as [A R].
+  set (s0 := add_notfound (set_pool s (Some q')) n).
+  assert (Hl : (drop_measure s0 q' < drop_fuel s0 q')%nat) by (unfold drop_measure, drop_fuel; lia).
+  destruct (drain_ready _ s0 q' Hl A R eq_refl) as [D1 [D2 D3]].
+  split; [exact D1|]. split.
+  - intros s' E. destruct (D2 s' E) as [B1 [B2 [B3 [B4 [B5 B6]]]]]. subst s0. pf. rewrite C1 in B2. repeat split; auto.
+  - intros Ho He. apply D3; [apply C3, Ho|exact He].
+Qed.
+
+(* Drop ends within drop_measure polls: any larger fuel gives the same result *)
+Lemma pool_drop_bound s q fuel : p_pool s = Some q -> Forall accepted_by_libusb q ->
+  let q' := fst (cancel_all q) in
+  let s0 := add_notfound (set_pool s (Some q')) (snd (cancel_all q)) in
+  (drop_measure s0 q' < fuel)%nat -> drain fuel s0 q' = pool_drop s q.
+Proof.
+  intros Hp Ha. unfold pool_drop. pose proof (cancel_all_facts q) as Hc.
+  destruct (cancel_all q) as [q' n]. cbn [fst snd] in *. destruct Hc as [C1 [C2 C3]]. destruct (C2 Ha) as [A R].
+  intros Hl. apply drain_fuel; auto; unfold drop_measure, drop_fuel; lia.
 Qed.
 
 (* ---- invariant over operation sequences ------------------------------------------------------------- *)
 
 Definition PInv (s : pstate) : Prop :=
   Forall accepted_by_libusb (pending_of s) /\
-  exists k, p_accepted s = Z.of_nat k /\ p_reaped s ++ map sl_no (pending_of s) = nums k.
+  (exists k, p_accepted s = Z.of_nat k /\ p_reaped s ++ map sl_no (pending_of s) = nums k) /\
+  p_freed s = 0.
+
+(* everything the device script will still do is something libusb documents *)
+Definition SInv (s : pstate) : Prop :=
+  Forall plan_ok (p_plan s) /\ Forall ev_ok (p_evs s) /\ Forall slot_ok (pending_of s).
+
+Definition panic_op (op : Z) (out : list Z) : bool := ((op =? 1) || (op =? 2) || (op =? 5)) && is_panic out.
 
 Lemma nums_S k : nums (S k) = nums k ++ [Z.of_nat k].
 Proof. unfold nums. rewrite seq_S, map_app. reflexivity. Qed.
 
-Lemma pinv_init pl : PInv (pinit pl).
-Proof. split; [constructor|]. exists 0%nat. split; reflexivity. Qed.
+Lemma pinv_init pl evs : PInv (pinit pl evs).
+Proof. split; [constructor|]. split; [|reflexivity]. exists 0%nat. split; reflexivity. Qed.
 
-Lemma pool_op_inv s op arg s' out : PInv s -> pool_op false s op arg = Some (s', out) -> PInv s'.
+Lemma sinv_init pl evs : Forall plan_ok pl -> Forall ev_ok evs -> SInv (pinit pl evs).
+Proof. intros H1 H2. split; [exact H1|]. split; [exact H2|]. constructor. Qed.
+
+Lemma pool_op_inv s op arg s' out : PInv s -> pool_op false s op arg = Some (s', out) -> panic_op op out = false ->
+  PInv s'.
 Proof.
-  intros [Ha [k [Hk Hn]]] H. unfold pool_op in H. unfold PInv, pending_of in *.
+  intros [Ha [[k [Hk Hn]] Hz]] H Hpan. unfold pool_op in H. unfold PInv, pending_of in *.
+  destruct (op =? 9); [inversion H; subst; pf; split; [exact Ha|split; [exists k; auto|exact Hz]]|].
   destruct (p_pool s) as [q|] eqn:Ep.
   - destruct (op =? 1).
-    { unfold submit in H. destruct (match p_plan s with [] => _ | x :: _ => x end) as [code|st ln d].
-      - inversion H; subst. split; pf; [exact Ha|]. exists k. auto.
-      - inversion H; subst. split; pf.
+    { unfold submit in H. destruct (match p_plan s with [] => _ | x :: _ => x end) as [code|st ln d cl].
+      - inversion H; subst. pf. split; [exact Ha|]. split; [exists k; auto|exact Hz].
+      - inversion H; subst. pf. split; [|split; [|exact Hz]].
         + apply Forall_app. split; [exact Ha|]. constructor; [|constructor]. unfold accepted_by_libusb. pf. discriminate.
         + exists (S k). split; [lia|]. rewrite map_app, app_assoc, Hn, nums_S. cbn [map sl_no]. now rewrite Hk. }
     destruct (op =? 2).
-    { destruct q as [|sl q]; [inversion H; subst; split; [rewrite Ep; exact Ha|exists k; rewrite Ep; auto]|].
-      match type of H with context [poll ?s1 ?qq] => destruct (poll s1 qq) as [s2 r] eqn:Epoll end.
-      destruct (poll_facts _ _ _ _ Epoll Ha) as [A1 [_ [_ R]]]. pf.
-      destruct r as [o|]; inversion H; subst.
-      - destruct R as [sl0 [rest [M [P1 [R1 [F1 _]]]]]]. split; [rewrite P1; exact F1|].
-        exists k. split; [congruence|]. rewrite P1, R1, <- app_assoc. cbn [app]. rewrite <- M. exact Hn.
-      - destruct R as [R1 R2]. destruct (R2 ltac:(discriminate)) as [q' [P1 [M F1]]].
-        split; [rewrite P1; exact F1|]. exists k. split; [congruence|]. rewrite P1, R1, M. exact Hn. }
-    destruct (op =? 3); [inversion H; subst; split; [rewrite Ep; exact Ha|exists k; rewrite Ep; auto]|].
+    { destruct q as [|sl q]; [inversion H; subst; rewrite Ep; split; [exact Ha|split; [exists k; auto|exact Hz]]|].
+      destruct (poll arg (next_epoch s) (sl :: q)) as [s2 r] eqn:Epoll.
+      assert (Hp2 : p_pool (next_epoch s) = Some (sl :: q)) by exact Ep.
+      destruct (poll_facts _ _ _ _ _ Epoll Hp2 Ha) as [A1 [_ [_ [A4 [_ [_ R]]]]]]. pf.
+      assert (Hall : PInv s2).
+      { unfold PInv, pending_of. destruct r as [o|o|].
+        - destruct R as [sl0 [rest [M [P1 [R1 [F1 _]]]]]]. rewrite P1. split; [exact F1|]. split; [|congruence].
+          exists k. split; [congruence|]. rewrite R1, <- app_assoc. cbn [app]. rewrite <- M. exact Hn.
+        - destruct R as [R1 [q' [P1 [M [F1 _]]]]]. rewrite P1. split; [exact F1|]. split; [|congruence].
+          exists k. split; [congruence|]. rewrite R1, M. exact Hn.
+        - destruct R as [R1 [q' [P1 [M [F1 _]]]]]. rewrite P1. split; [exact F1|]. split; [|congruence].
+          exists k. split; [congruence|]. rewrite R1, M. exact Hn. }
+      unfold PInv, pending_of in Hall.
+      destruct r as [o|o|]; inversion H; subst; exact Hall. }
+    destruct (op =? 3); [inversion H; subst; rewrite Ep; split; [exact Ha|split; [exists k; auto|exact Hz]]|].
     destruct (op =? 4).
     { pose proof (cancel_all_facts q) as Hc. destruct (cancel_all q) as [q' n]. cbn [fst] in Hc.
-      destruct Hc as [C1 C2]. inversion H; subst. split; pf; [apply C2, Ha|]. exists k. rewrite C1. auto. }
-    destruct (op =? 5).
-    { destruct (pool_drop_ok s q Ep Ha) as [s1 [D1 [D2 [D3 D4]]]]. rewrite D1 in H. inversion H; subst.
-      split; [rewrite D2; constructor|]. exists k. split; [congruence|]. rewrite D2, D3. cbn [map]. now rewrite app_nil_r. }
-    destruct (op =? 6); [inversion H; subst; split; [rewrite Ep; exact Ha|exists k; rewrite Ep; auto]|].
-    destruct (op =? 7); inversion H; subst; (split; [rewrite Ep; exact Ha|exists k; rewrite Ep; auto]).
+      destruct Hc as [C1 [C2 _]]. inversion H; subst. pf. split; [apply C2, Ha|]. split; [|exact Hz]. exists k. rewrite C1. auto. }
+    destruct (op =? 5) eqn:E5.
+    { destruct (pool_drop_ok s q Ep Ha) as [D1 [D2 _]]. destruct (pool_drop s q) as [s1|s1|] eqn:Ed; [| |congruence].
+      - destruct (D2 s1 eq_refl) as [B1 [B2 [B3 [B4 _]]]]. inversion H; subst.
+        rewrite B1. split; [constructor|]. split; [|congruence]. exists k. split; [congruence|].
+        rewrite B2. cbn [map]. now rewrite app_nil_r.
+      - inversion H; subst. unfold panic_op in Hpan. rewrite E5 in Hpan.
+        rewrite Bool.orb_true_r in Hpan. discriminate. }
+    destruct (op =? 6); [inversion H; subst; rewrite Ep; split; [exact Ha|split; [exists k; auto|exact Hz]]|].
+    destruct (op =? 7); inversion H; subst; rewrite Ep; (split; [exact Ha|split; [exists k; auto|exact Hz]]).
   - destruct (op =? 6).
-    { inversion H; subst. split; pf; [constructor|]. exists k. auto. }
-    destruct ((op =? 3) || (op =? 7)); inversion H; subst; (split; [rewrite Ep; exact Ha|exists k; rewrite Ep; auto]).
+    { inversion H; subst. pf. split; [constructor|]. split; [exists k; auto|exact Hz]. }
+    destruct ((op =? 3) || (op =? 7)); inversion H; subst; rewrite Ep; (split; [exact Ha|split; [exists k; auto|exact Hz]]).
 Qed.
 
 Lemma pool_op_total s op arg : PInv s -> pool_op false s op arg <> None.
 Proof.
-  intros [Ha _] H. unfold pool_op, pending_of in *. destruct (p_pool s) as [q|] eqn:Ep.
+  intros [Ha _] H. unfold pool_op, pending_of in *. destruct (op =? 9); [discriminate|].
+  destruct (p_pool s) as [q|] eqn:Ep.
   - destruct (op =? 1); [discriminate|]. destruct (op =? 2).
-    { destruct q; [discriminate|]. destruct (poll _ _) as [s2 [o|]]; discriminate. }
+    { destruct q; [discriminate|]. destruct (poll _ _) as [s2 [o|o|]]; discriminate. }
     destruct (op =? 3); [discriminate|]. destruct (op =? 4); [destruct (cancel_all q); discriminate|].
     destruct (op =? 5).
-    { destruct (pool_drop_ok s q Ep Ha) as [s1 [D1 _]]. rewrite D1 in H. discriminate. }
+    { destruct (pool_drop_ok s q Ep Ha) as [D1 _]. destruct (pool_drop s q); [discriminate|discriminate|congruence]. }
     destruct (op =? 6); [discriminate|]. destruct (op =? 7); discriminate.
   - destruct (op =? 6); [discriminate|]. destruct ((op =? 3) || (op =? 7)); discriminate.
 Qed.
 
-Lemma pool_run_inv ops : forall s s' out b, PInv s -> pool_run false s ops = Some (s', out, b) -> PInv s'.
+Lemma is_panic_long a b r : is_panic (a :: b :: r) = false.
+Proof. unfold is_panic. destruct a as [|p|p]; auto. destruct p as [p|p|]; auto. destruct p; auto. Qed.
+
+Lemma reap_out sl out : reap sl = Some out -> is_panic out = false -> exists a b r, out = a :: b :: r.
 Proof.
-  induction ops as [|[op arg] ops IH]; intros s s' out b Hi H; cbn [pool_run] in H.
+  unfold reap. destruct (sl_st sl) as [| |st ln]; try discriminate. intros H. inversion H; subst.
+  destruct (completion st ln) as [[n|c]|]; eauto. discriminate.
+Qed.
+
+Lemma poll_out ms s q s' r : poll ms s q = (s', r) ->
+  match r with
+  | PReap out => is_panic out = false -> exists a b r, out = a :: b :: r
+  | PFail out => exists a b r, out = a :: b :: r
+  | PPanic => True
+  end.
+Proof.
+  unfold poll. destruct q as [|sl q]; [intros H; inversion H; subst; exact I|].
+  destruct (reap sl) as [out|] eqn:Er; [intros H; inversion H; subst; eapply reap_out; eassumption|].
+  destruct (ms <=? 0); [intros H; inversion H; subst; eauto|].
+  destruct (poll_wait _ s (sl :: q)) as [[s1 q1] w].
+  destruct w as [| |code].
+  - destruct q1 as [|sl1 r1]; [intros H; inversion H; subst; eauto|].
+    destruct (reap sl1) as [out|] eqn:Er1; intros H; inversion H; subst; [eapply reap_out; eassumption|eauto].
+  - intros H; inversion H; subst; eauto.
+  - destruct (err_class code); intros H; inversion H; subst; [eauto|exact I].
+Qed.
+
+(* with statuses and error codes libusb documents nothing panics and that stays so *)
+Lemma pool_op_sane s op arg s' out : PInv s -> SInv s -> op_ok (op, arg) ->
+  pool_op false s op arg = Some (s', out) -> SInv s' /\ panic_op op out = false.
+Proof.
+  intros [Ha _] [Sp [Se So]] Hop H. unfold pool_op in H. unfold SInv, pending_of, panic_op in *.
+  destruct (Z.eqb_spec op 9) as [E9|E9].
+  { inversion H; subst. pf. split; [|reflexivity]. split; [exact Sp|]. split; [|exact So].
+    apply Forall_app. split; [exact Se|]. constructor; [|constructor]. exact (Hop eq_refl). }
+  destruct (p_pool s) as [q|] eqn:Ep.
+  - destruct (Z.eqb_spec op 1) as [E1|E1].
+    { subst op. cbn [Z.eqb Pos.eqb orb andb]. unfold submit in H.
+      assert (Hpl : plan_ok (match p_plan s with [] => PAccept 0 arg 0 0 | x :: _ => x end)).
+      { destruct (p_plan s); [cbn; unfold status_ok; auto|now inversion Sp]. }
+      destruct (match p_plan s with [] => _ | x :: _ => x end) as [code|st ln d cl].
+      - inversion H; subst. pf. split; [split; [apply Forall_tl, Sp|split; [exact Se|exact So]]|].
+        cbn [plan_ok] in Hpl. unfold code_ok in Hpl. destruct (err_class code); [reflexivity|congruence].
+      - inversion H; subst. pf. split; [|reflexivity]. split; [apply Forall_tl, Sp|]. split; [exact Se|].
+        apply Forall_app. split; [exact So|]. constructor; [|constructor]. unfold slot_ok. pf. exact Hpl. }
+    destruct (Z.eqb_spec op 2) as [E2|E2].
+    { subst op. cbn [Z.eqb Pos.eqb orb andb].
+      destruct q as [|sl q]; [inversion H; subst; rewrite Ep; split; [auto|reflexivity]|].
+      destruct (poll arg (next_epoch s) (sl :: q)) as [s2 r] eqn:Epoll.
+      assert (Hp2 : p_pool (next_epoch s) = Some (sl :: q)) by exact Ep.
+      destruct (poll_facts _ _ _ _ _ Epoll Hp2 Ha) as [_ [A2 [_ [_ [_ [A6 R]]]]]]. pf.
+      pose proof (poll_out _ _ _ _ _ Epoll) as Hout.
+      destruct r as [o|o|].
+      - destruct R as [sl0 [rest [_ [P1 [_ [_ [_ [_ O]]]]]]]]. destruct (O So) as [O1 O2]. rewrite O2 in H.
+        inversion H; subst. rewrite P1. split; [split; [congruence|split; [apply A6, Se|exact O1]]|].
+        destruct (Hout O2) as [a [b [r0 ->]]]. cbn [app]. apply is_panic_long.
+      - destruct R as [_ [q' [P1 [_ [_ [_ [_ [O _]]]]]]]]. inversion H; subst. rewrite P1.
+        split; [split; [congruence|split; [apply A6, Se|exact (O So)]]|].
+        destruct Hout as [a [b [r0 ->]]]. cbn [app]. apply is_panic_long.
+      - destruct R as [_ [q' [_ [_ [_ [_ [_ [_ [_ X]]]]]]]]]. exfalso. apply (X eq_refl); [discriminate|exact Se]. }
+    destruct (Z.eqb_spec op 5) as [E5|E5].
+    { subst op. cbn [Z.eqb Pos.eqb orb andb] in *.
+      destruct (pool_drop_ok s q Ep Ha) as [_ [D2 D3]]. destruct (D3 So Se) as [s1 Ed]. rewrite Ed in H.
+      destruct (D2 s1 Ed) as [B1 [_ [_ [_ [B5 B6]]]]]. inversion H; subst. rewrite B1.
+      split; [split; [congruence|split; [apply B6, Se|constructor]]|reflexivity]. }
+    replace ((op =? 1) || (op =? 2) || (op =? 5)) with false
+      by (destruct (Z.eqb_spec op 1), (Z.eqb_spec op 2), (Z.eqb_spec op 5); try congruence; reflexivity).
+    cbn [andb]. split; [|reflexivity].
+    destruct (op =? 3); [inversion H; subst; rewrite Ep; auto|].
+    destruct (op =? 4).
+    { pose proof (cancel_all_facts q) as Hc. destruct (cancel_all q) as [q' n]. cbn [fst] in Hc.
+      destruct Hc as [_ [_ C3]]. inversion H; subst. pf. auto. }
+    destruct (op =? 6); [inversion H; subst; rewrite Ep; auto|].
+    destruct (op =? 7); inversion H; subst; rewrite Ep; auto.
+  - assert (Hs : SInv s') ; [|split; [exact Hs|]].
+    { unfold SInv, pending_of. destruct (op =? 6); [inversion H; subst; pf; auto|].
+      destruct ((op =? 3) || (op =? 7)); inversion H; subst; rewrite Ep; auto. }
+    destruct (op =? 6); [inversion H; subst; apply Bool.andb_false_r|].
+    destruct (Z.eqb_spec op 3) as [E3|E3]; [subst; reflexivity|].
+    destruct (Z.eqb_spec op 7) as [E7|E7]; [subst; reflexivity|].
+    cbn [orb] in H. inversion H; subst. apply Bool.andb_false_r.
+Qed.
+
+Lemma pool_run_inv ops : forall s s' out, PInv s -> pool_run false s ops = Some (s', out, false) -> PInv s'.
+Proof.
+  induction ops as [|[op arg] ops IH]; intros s s' out Hi H; cbn [pool_run] in H.
   - inversion H; subst; exact Hi.
   - destruct (pool_op false s op arg) as [[s1 o1]|] eqn:E; [|discriminate].
-    pose proof (pool_op_inv _ _ _ _ _ Hi E) as Hi1.
-    destruct (((op =? 1) || (op =? 2)) && is_panic o1); [inversion H; subst; exact Hi1|].
+    destruct (((op =? 1) || (op =? 2) || (op =? 5)) && is_panic o1) eqn:Ep; [discriminate|].
+    pose proof (pool_op_inv _ _ _ _ _ Hi E Ep) as Hi1.
     destruct (pool_run false s1 ops) as [[[s2 o2] b2]|] eqn:E2; [|discriminate].
     inversion H; subst. eapply IH; eassumption.
 Qed.
@@ -210,41 +547,127 @@ Lemma pool_run_total ops : forall s, PInv s -> pool_run false s ops <> None.
 Proof.
   induction ops as [|[op arg] ops IH]; intros s Hi; cbn [pool_run]; [discriminate|].
   destruct (pool_op false s op arg) as [[s1 o1]|] eqn:E; [|exfalso; exact (pool_op_total _ _ _ Hi E)].
-  destruct (((op =? 1) || (op =? 2)) && is_panic o1); [discriminate|].
-  pose proof (IH s1 (pool_op_inv _ _ _ _ _ Hi E)) as Hn.
+  destruct (((op =? 1) || (op =? 2) || (op =? 5)) && is_panic o1) eqn:Ep; [discriminate|].
+  pose proof (IH s1 (pool_op_inv _ _ _ _ _ Hi E Ep)) as Hn.
   destruct (pool_run false s1 ops) as [[[s2 o2] b2]|]; [discriminate|congruence].
+Qed.
+
+Lemma pool_run_sane ops : forall s s' out b, PInv s -> SInv s -> Forall op_ok ops ->
+  pool_run false s ops = Some (s', out, b) -> b = false /\ SInv s'.
+Proof.
+  induction ops as [|[op arg] ops IH]; intros s s' out b Hi Hs Ho H; cbn [pool_run] in H.
+  - inversion H; subst. auto.
+  - inversion Ho; subst.
+    destruct (pool_op false s op arg) as [[s1 o1]|] eqn:E; [|discriminate].
+    destruct (pool_op_sane _ _ _ _ _ Hi Hs H2 E) as [Hs1 Hp]. unfold panic_op in Hp. rewrite Hp in H.
+    pose proof (pool_op_inv _ _ _ _ _ Hi E Hp) as Hi1.
+    destruct (pool_run false s1 ops) as [[[s2 o2] b2]|] eqn:E2; [|discriminate].
+    inversion H; subst. eapply IH; eassumption.
 Qed.
 
 (* ---- statements -------------------------------------------------------------------------------------- *)
 
-Lemma pool_pending_accepted pl ops s out b : pool_run false (pinit pl) ops = Some (s, out, b) ->
+Lemma pool_pending_accepted pl evs ops s out : pool_run false (pinit pl evs) ops = Some (s, out, false) ->
   forall q, p_pool s = Some q -> Forall accepted_by_libusb q.
 Proof.
-  intros H q Hq. destruct (pool_run_inv _ _ _ _ _ (pinv_init pl) H) as [Ha _].
+  intros H q Hq. destruct (pool_run_inv _ _ _ _ (pinv_init pl evs) H) as [Ha _].
   unfold pending_of in Ha. now rewrite Hq in Ha.
 Qed.
 
-Lemma pool_poll_fifo pl ops s out b : pool_run false (pinit pl) ops = Some (s, out, b) ->
+Lemma pool_poll_fifo pl evs ops s out : pool_run false (pinit pl evs) ops = Some (s, out, false) ->
   exists k, p_accepted s = Z.of_nat k /\ p_reaped s ++ map sl_no (pending_of s) = nums k.
-Proof. intros H. exact (proj2 (pool_run_inv _ _ _ _ _ (pinv_init pl) H)). Qed.
+Proof. intros H. exact (proj1 (proj2 (pool_run_inv _ _ _ _ (pinv_init pl evs) H))). Qed.
 
 Lemma pool_refused_submit_unchanged s q len code rest : p_plan s = PRefuse code :: rest ->
   let '(s', out) := submit false s q len in
   p_pool s' = Some q /\ p_accepted s' = p_accepted s /\ p_reaped s' = p_reaped s /\
-  p_completed s' = p_completed s /\ p_refused s' = p_refused s + 1 /\
+  p_completed s' = p_completed s /\ p_refused s' = p_refused s + 1 /\ p_freed s' = p_freed s /\
   out = match err_class code with Some c => [1; c] | None => [2] end.
 Proof. intros H. unfold submit. rewrite H. cbn [tl]. pf. repeat split; auto. Qed.
 
-Lemma pool_drop_terminates pl ops s out b q : pool_run false (pinit pl) ops = Some (s, out, b) ->
-  p_pool s = Some q ->
-  exists s', pool_drop s q = Some s' /\ p_pool s' = None /\ p_reaped s' = p_reaped s ++ map sl_no q /\
-             p_accepted s' = p_accepted s.
-Proof. intros H Hq. apply pool_drop_ok; [exact Hq|]. eapply pool_pending_accepted; eassumption. Qed.
+(* a poll that does not return a completion - time-out, failing event handling, even the
+   unreachable!() on an unknown code - pops nothing and loses nothing *)
+Lemma pool_failed_poll_keeps_pending pl evs ops s out q ms s' r :
+  pool_run false (pinit pl evs) ops = Some (s, out, false) -> p_pool s = Some q ->
+  poll ms s q = (s', r) -> (forall o, r <> PReap o) ->
+  exists q', p_pool s' = Some q' /\ map sl_no q' = map sl_no q /\ length q' = length q /\
+             Forall accepted_by_libusb q' /\ p_reaped s' = p_reaped s /\ p_freed s' = p_freed s.
+Proof.
+  intros H Hq Hpoll Hr. pose proof (pool_pending_accepted _ _ _ _ _ H q Hq) as Ha.
+  destruct (poll_facts _ _ _ _ _ Hpoll Hq Ha) as [_ [_ [_ [A4 [_ [_ R]]]]]].
+  destruct r as [o|o|]; [exfalso; exact (Hr o eq_refl)| |];
+    destruct R as [R1 [q' [P1 [M [F1 _]]]]]; exists q'; repeat split; auto;
+    rewrite <- (map_length sl_no q'), M; apply map_length.
+Qed.
 
-Lemma pool_ops_terminate pl ops : pool_run false (pinit pl) ops <> None.
+(* Drop of the pool, in any reachable state, whatever the device script: it terminates - within
+   drop_measure rounds of its loop: the transfers pending + the cancellation latencies still to run +
+   the failing event-handling calls still in the plan -, and when it has returned every pending
+   transfer has been reaped, in submission order, and none was freed while in flight *)
+Lemma pool_drop_terminates pl evs ops s out q : pool_run false (pinit pl evs) ops = Some (s, out, false) ->
+  p_pool s = Some q ->
+  pool_drop s q <> DHang /\
+  (forall s', pool_drop s q = DRet s' ->
+     p_pool s' = None /\ p_reaped s' = p_reaped s ++ map sl_no q /\ p_accepted s' = p_accepted s /\ p_freed s' = 0).
+Proof.
+  intros H Hq. pose proof (pool_pending_accepted _ _ _ _ _ H q Hq) as Ha.
+  destruct (pool_drop_ok s q Hq Ha) as [D1 [D2 _]]. split; [exact D1|].
+  intros s' E. destruct (D2 s' E) as [B1 [B2 [B3 [B4 _]]]].
+  destruct (pool_run_inv _ _ _ _ (pinv_init pl evs) H) as [_ [_ Hz]]. repeat split; auto; congruence.
+Qed.
+
+Lemma pool_drop_rounds_bound pl evs ops s out q fuel : pool_run false (pinit pl evs) ops = Some (s, out, false) ->
+  p_pool s = Some q ->
+  let q' := fst (cancel_all q) in
+  let s0 := add_notfound (set_pool s (Some q')) (snd (cancel_all q)) in
+  (length q + lat_sum q + failures (p_evs s) < fuel)%nat -> drain fuel s0 q' = pool_drop s q.
+Proof.
+  intros H Hq q' s0 Hl. pose proof (pool_pending_accepted _ _ _ _ _ H q Hq) as Ha.
+  apply pool_drop_bound; auto. fold q' s0. unfold drop_measure. subst s0. pf.
+  assert (length q' = length q /\ lat_sum q' = lat_sum q) as [-> ->]; [|exact Hl].
+  subst q'. clear. induction q as [|sl q [I1 I2]]; cbn [cancel_all fst length lat_sum]; [auto|].
+  destruct (cancel1 sl) as [sl' n] eqn:E1. destruct (cancel_all q) as [r m]. cbn [fst length lat_sum] in *.
+  split; [lia|]. rewrite I2. f_equal. unfold cancel1 in E1. unfold lat1.
+  destruct (sl_st sl) eqn:Es; inversion E1; subst; pf; rewrite ?Es; reflexivity.
+Qed.
+
+Lemma pool_ops_terminate pl evs ops : pool_run false (pinit pl evs) ops <> None.
 Proof. apply pool_run_total, pinv_init. Qed.
+
+(* nothing is ever freed while libusb has it in flight, as long as no unreachable!() is hit *)
+Lemma pool_never_frees_in_flight pl evs ops s out : pool_run false (pinit pl evs) ops = Some (s, out, false) ->
+  p_freed s = 0.
+Proof. intros H. exact (proj2 (proj2 (pool_run_inv _ _ _ _ (pinv_init pl evs) H))). Qed.
+
+(* and none is hit when the device script stays within what libusb documents *)
+Lemma pool_documented_codes_no_panic pl evs ops s out b : Forall plan_ok pl -> Forall ev_ok evs -> Forall op_ok ops ->
+  pool_run false (pinit pl evs) ops = Some (s, out, b) ->
+  b = false /\ forall q, p_pool s = Some q -> exists s', pool_drop s q = DRet s' /\ p_freed s' = 0.
+Proof.
+  intros Hp He Ho H.
+  destruct (pool_run_sane _ _ _ _ _ (pinv_init pl evs) (sinv_init _ _ Hp He) Ho H) as [-> [S1 [S2 S3]]].
+  split; [reflexivity|]. intros q Hq. pose proof (pool_pending_accepted _ _ _ _ _ H q Hq) as Ha.
+  unfold pending_of in S3. rewrite Hq in S3.
+  destruct (pool_drop_ok s q Hq Ha) as [_ [D2 D3]]. destruct (D3 S3 S2) as [s' Ed]. exists s'. split; [exact Ed|].
+  destruct (D2 s' Ed) as [_ [_ [_ [B4 _]]]]. rewrite B4. eapply pool_never_frees_in_flight; eassumption.
+Qed.
 
 (* pushing onto `pending` before libusb accepted the transfer: one refused submission and the
    drop of the pool never returns *)
-Lemma pool_push_first_wedges : pool_run true (pinit [PRefuse (-11)]) [(1, 16); (5, 0)] = None.
+Lemma pool_push_first_wedges : pool_run true (pinit [PRefuse (-11)] []) [(1, 16); (5, 0)] = None.
 Proof. vm_compute. reflexivity. Qed.
+
+(* a clean-up that polls once per pending transfer instead of until the pool is empty: one
+   interrupted event handling (or one slow cancellation) and a transfer is freed in flight, where
+   the code's loop reaps it *)
+Lemma pool_rounds_variant_interrupted :
+  exists s q s1 s2, pool_run false (pinit [PAccept 0 8 1000000 0] [-10]) [(1, 16)] = Some (s, [0], false) /\
+    p_pool s = Some q /\ pool_drop_rounds s q = DRet s1 /\ p_freed s1 = 1 /\
+    pool_drop s q = DRet s2 /\ p_freed s2 = 0 /\ p_reaped s2 = [0].
+Proof. do 4 eexists. vm_compute. repeat split; reflexivity. Qed.
+
+Lemma pool_rounds_variant_slow_cancel :
+  exists s q s1 s2, pool_run false (pinit [PAccept 0 8 1000000 2; PAccept 0 8 1000000 2] []) [(1, 16); (1, 16)] = Some (s, [0; 0], false) /\
+    p_pool s = Some q /\ pool_drop_rounds s q = DRet s1 /\ p_freed s1 = 2 /\
+    pool_drop s q = DRet s2 /\ p_freed s2 = 0 /\ p_reaped s2 = [0; 1].
+Proof. do 4 eexists. vm_compute. repeat split; reflexivity. Qed.
